@@ -885,6 +885,11 @@ CLAUSE = {"rejected-valid": "accept<=>valid", "accepted-invalid": "accept<=>vali
           "exc-class": "raises-only", "installed": "installed-is-assigned"}
 
 
+def _hier_bound(tier):
+    from bounded import c01_hier
+    return c01_hier.bound_text(tier)
+
+
 def run(tier, seed):
     B = Bounded(
         "C01",
@@ -907,8 +912,8 @@ def run(tier, seed):
               "Parameter, histories of list-style in-place edits of `objects` ([i]=, [a:b]=, append, insert, extend, pop, "
               "remove, clear; quick 2 / thorough 3 edits on the core configurations), after every edit one assignment per "
               "route (instance, constructor keyword, class, update, deserialize-then-update, untouched older instance) of every "
-              "object seen so far + a never-member: accepted iff among the CURRENT objects"
-              % (len(all_configs()), len(GLOBAL)))
+              "object seen so far + a never-member: accepted iff among the CURRENT objects; %s"
+              % (len(all_configs()), len(GLOBAL), _hier_bound(tier)))
     cfgs = all_configs()
     n = len(cfgs)
     B.exhaustive = tier != "quick"
@@ -978,6 +983,10 @@ def run(tier, seed):
     #      edits of `objects` (dict- and list-declared), every route  (bounded/c18_mixed.py, shared with C18)
     from bounded import c18_mixed
     c18_mixed.run_family(B, "C01", tier, seed)
+    # ---- family HI: class hierarchies (chain, fan, diamonds, two roots) with x re-declared on some classes: the
+    #      constraints in force for K.x are those of the Parameter Python's MRO resolves for K  (bounded/c01_hier.py)
+    from bounded import c01_hier
+    c01_hier.run_family(B, tier, seed)
     B.note("out of scope (DESIGN 7/C01): verdict on callables given to Number/Integer/Magnitude (value "
            "generators: only the exception class is checked; Date/CalendarDate must reject them), callables "
            "that do not accept attribute assignment on Number/Integer/Magnitude and as constructor default "
